@@ -151,13 +151,25 @@ func c08RunFrom(exprs []string, stream []int, canon *mc.Canon, viaReader bool) (
 	src := newResultSource(stream, viaReader)
 	var pp ProjectionParser
 	var projs []*Projection
+	// An expression written "!text" must be REJECTED by the parser; it only names keys that an accepted
+	// expression of the same sequence names as well, and takes no further part: the projections that exist are
+	// those of the accepted expressions, with their exclusions intact.
+	var accepted []string
 	for _, e := range exprs {
+		if strings.HasPrefix(e, "!") {
+			if _, err := pp.Parse(e[1:], nil); err == nil {
+				return "", fmt.Sprintf("Parse(%q) is accepted", e[1:])
+			}
+			continue
+		}
 		p, err := pp.Parse(e, nil)
 		if err != nil {
 			return "", fmt.Sprintf("Parse(%q): %v", e, err)
 		}
 		projs = append(projs, p)
+		accepted = append(accepted, e)
 	}
+	exprs = accepted
 	projs = append(projs, pp.Residue())
 	names := append(append([]string{}, exprs...), "<residue>")
 	refOf := func(pi int, r presult) string {
@@ -284,6 +296,9 @@ func exprSequences(maxLen int) [][]string {
 var c08Compound = [][]string{
 	{".config,/k"}, {"/k,.config"}, {".config,.name"}, {"goos,.config,/k"}, {".fullname,goos"}, {".config,/gomaxprocs", "pkg"},
 	{"pkg", ".config,.name,/k"}, {".config,.fullname"}, {".fullname,.config"}, {".config,.file,/k"},
+	// a rejected expression between accepted ones (it repeats keys the accepted ones name)
+	{"goos", "!goos,pkg@bogus", ".config"}, {"goos", ".config", "!goos,.unit"}, {"/k", "!/k,.config@(a)", ".fullname"},
+	{"pkg,goos", "!pkg@(", ".config"}, {".name", "!.name,goos@nosuch", ".fullname", "goos"},
 }
 
 func c08Space(c *mc.Check, depth int, maxExprs int) {
